@@ -58,8 +58,9 @@ def snocField : Val → Val → Val
   | _, x => .pair x .unit
 
 /-- the ancestry headers are read one after the other: four fields, then the length of the digest
-    `[]any`; a non-zero length makes pkg/scale decode into a nil interface element, which is a nil
-    dereference (Go panic) -/
+    `[]any`; a non-zero length makes pkg/scale decode into a nil interface element:
+    `ErrUnsupportedType` (a nil dereference / Go panic before repository commit 19f7355b9; the
+    `panic` outcome is kept for the driver's output vocabulary) -/
 def decAncestries : Nat → Bytes → Outcome (List Val × Bytes)
   | 0, bs => .ok ([], bs)
   | k + 1, bs =>
@@ -73,7 +74,7 @@ def decAncestries : Nat → Bytes → Outcome (List Val × Bytes)
         | .ok (hs, r'') => .ok (snocField h (.list []) :: hs, r'')
         | .err => .err
         | .panic => .panic
-      | some (_ + 1, _) => .panic
+      | some (_ + 1, _) => .err
 
 def decodeFgJust (n : CTy) (bs : Bytes) : Outcome Val :=
   match unmarshal (fgJustHead n) bs with
